@@ -18,11 +18,13 @@ import (
 	"sort"
 	"strconv"
 	"strings"
+	"sync"
 	"syscall"
 	"time"
 )
 
 type ufsFid struct {
+	sync.Mutex // serialises the directory reads of this fid
 	path       string
 	file       *os.File
 	dirs       []os.FileInfo
@@ -481,17 +483,22 @@ func (*Ufs) Read(req *SrvReq) {
 	var count int
 	var e error
 	if fid.st.IsDir() {
+		// a client may have several reads of one directory fid outstanding:
+		// they reopen the directory and rebuild and slice the same listing
+		fid.Lock()
 		if tc.Offset == 0 {
 			var e error
 			// If we got here, it was open. Can't really seek
 			// in most cases, just close and reopen it.
 			_ = fid.file.Close()
 			if fid.file, e = os.OpenFile(fid.path, omode2uflags(req.Fid.Omode), 0); e != nil {
+				fid.Unlock()
 				req.RespondError(toError(e))
 				return
 			}
 
 			if fid.dirs, e = fid.file.Readdir(-1); e != nil {
+				fid.Unlock()
 				req.RespondError(toError(e))
 				return
 			}
@@ -514,6 +521,7 @@ func (*Ufs) Read(req *SrvReq) {
 		switch {
 		case tc.Offset > uint64(len(fid.dirents)):
 			// past the end of the listing (or never listed from offset 0): nothing to return
+			fid.Unlock()
 			SetRreadCount(rc, 0)
 			req.Respond()
 			return
@@ -535,12 +543,14 @@ func (*Ufs) Read(req *SrvReq) {
 				}
 			}
 			if count == 0 && int(tc.Offset) < len(fid.dirents) && len(fid.dirents) > 0 {
+				fid.Unlock()
 				req.RespondError(&Error{"too small read size for dir entry", EINVAL})
 				return
 			}
 		}
 
 		copy(rc.Data, fid.dirents[tc.Offset:int(tc.Offset)+count])
+		fid.Unlock()
 
 	} else {
 		count, e = fid.file.ReadAt(rc.Data, int64(tc.Offset))
